@@ -175,6 +175,19 @@ def run_index_case(case, rec):
                 compare_selection(rec, fp + '-single', result, truth, kind, cells, None, shift, nan_cell, label, geometry_names)
             except LibraryRaised as err:
                 rec.check(False, f"{fp}-single/raised", label, 'dataset', str(err))
+    # one long request (5000 entries, every cell many times, in an order that is neither sorted nor periodic in the grid)
+    if case['length'] == 1 and not case['names_taken'] and not case['spec'].get('history'):
+        rec.nontrivial('long-request')
+        cells = [(k * 7919 + (k * k) % 13) % size for k in range(5000)]
+        label = "select_indexes(5000 unsorted requests)"
+        try:
+            result = lib(convention.select_indexes, [builders.native_index(truth, kind, ref.row_major_unravel(n, shape)) for n in cells])
+            new_dims = [d for d in result.dims if d not in ds.dims]
+            if rec.check(len(new_dims) == 1 and result.sizes[new_dims[0]] == len(cells), f"{fp}/new-dimension", f"{label}: new dimension",
+                         len(cells), dict(result.sizes)):
+                compare_selection(rec, fp, result, truth, kind, cells, new_dims[0], shift, nan_cell, label, geometry_names)
+        except LibraryRaised as err:
+            rec.check(False, f"{fp}/raised", label, 'dataset', str(err))
     # state carried between calls: after a selection the user assigns a new variable and replaces another one on
     # the same dataset object; the next selection must show the dataset as it is now
     if case['length'] == 1 and not case['names_taken'] and kind == truth.default_kind:
